@@ -651,8 +651,17 @@ def loaded_embedded_edits(res, rng, n):
         for i, (mod, cname) in enumerate(picks):
             mm.mappings.values[i] = mm.Mapping((mod.index, (names_s if mod is smp else names_a).index(cname)))
         mm.update_user_defined_controllers()
-        want = [(repr(getattr(mm, f"user_defined_{i + 1}")), mm.get_raw(f"user_defined_{i + 1}")) for i in range(len(picks))]
+        # (what each exposed controller stands for is known from the script: the target's own value, in the target's own kind)
+        stands_for = {"vibrato_type": ("<VibratoType.saw: 1>", 1), "vibrato_depth": ("77", 77), "balance": ("-77", 51), "volume": ("300", 300),
+                      "volume_fadeout": ("1234", 1234), "dc_offset": ("5", 133)}
+        want = [stands_for[cname] for _mod, cname in picks]
         case = {"family": "loaded-embedded-edits", "slots": [p_[1] for p_ in picks]}
+        built = [(repr(getattr(mm, f"user_defined_{i + 1}")), mm.get_raw(f"user_defined_{i + 1}")) for i in range(len(picks))]
+        if built != want:
+            i = next(j for j in range(len(picks)) if built[j] != want[j])
+            res.violation("C15:api-did-not-store:/controllers/user_defined_N:unattached-target", f"exposed controller {i + 1} mapped onto {type(picks[i][0]).__name__}.{picks[i][1]} "
+                                                                                               f"shows {built[i]} after update_user_defined_controllers(), the target holds {want[i]}", case)
+            continue
         res.count("loaded_embedded_edit_cases")
         try:
             loaded = mm.clone()
